@@ -25,6 +25,7 @@ type c16Input struct {
 	Only      string `json:"only_templated_field,omitempty"` // when set, this is the only field that carries a template
 	Disabled  bool   `json:"disabled,omitempty"`             // the templated process is disabled: true (it can be started by hand)
 	Nested    bool   `json:"nested_var,omitempty"`           // a process variable whose value is a mapping, used as {{.DB.host}}
+	NameKey   bool   `json:"name_key,omitempty"`             // the process entry carries a name: key that differs from its key under processes:
 	Flags     string `json:"flags,omitempty"`                // further options of the templated process that do not change what is rendered
 	Mode      string `json:"map_order"`
 }
@@ -78,6 +79,9 @@ func (in c16Input) yaml() string {
 	}
 	if in.Disabled {
 		b.WriteString("    disabled: true\n")
+	}
+	if in.NameKey {
+		b.WriteString("    name: \"frontend\"\n")
 	}
 	for _, f := range strings.Fields(in.Flags) {
 		fmt.Fprintf(&b, "    %s: true\n", f)
@@ -198,6 +202,9 @@ func c16E2(tier string, o *E2Out) {
 						in2 := in
 						in2.Disabled = true
 						c16One(o, dir, in2, false)
+						in5 := in
+						in5.NameKey = true
+						c16One(o, dir, in5, false)
 						for _, fl := range []string{"is_foreground", "is_daemon", "is_tty"} {
 							in3 := in
 							in3.Flags = fl
